@@ -229,23 +229,30 @@ impl<'a> ExecutionEngine<'a> {
             let line_value = Value::String(line);
 
             if let Some(joined_table_data) = self.joined_table_data.as_ref() {
+                // Every partner of the line updates the aggregates; the table is built once, after the last one
                 let aggregate_execution_engine = &mut self.aggregate_execution_engine;
-                Ok(
-                    execute_join(
-                        table_definition,
-                        &row,
-                        &line_value,
-                        aggregate_statement.join.as_ref().unwrap(),
-                        joined_table_data,
-                        false,
-                        |column_provider| {
-                            aggregate_execution_engine.execute(
-                                aggregate_statement,
-                                column_provider
-                            )
-                        }
-                    )?
-                )
+                let output = execute_join(
+                    table_definition,
+                    &row,
+                    &line_value,
+                    aggregate_statement.join.as_ref().unwrap(),
+                    joined_table_data,
+                    false,
+                    |column_provider| {
+                        aggregate_execution_engine.execute_update(
+                            aggregate_statement,
+                            column_provider
+                        )?;
+
+                        Ok(None)
+                    }
+                )?;
+
+                if output.joined {
+                    Ok(ExecutionOutput::joined(Some(self.aggregate_execution_engine.execute_result(aggregate_statement)?)))
+                } else {
+                    Ok(output)
+                }
             } else {
                 let aggregate_execution_engine = &mut self.aggregate_execution_engine;
                 Ok(
